@@ -300,6 +300,9 @@ func getConsensusObservation(
 
 	// Get consensus using strict 2fChain+1 threshold.
 	twoFChainPlus1 := consensus.MakeMultiThreshold(fChains, consensus.TwoFPlus1)
+	// Off-ramp sequence numbers are read from the destination chain, whatever source chain they are about:
+	// the oracles that can report them are the destination readers, so the threshold is the destination's.
+	twoFDestPlus1 := consensus.MakeConstantThreshold[cciptypes.ChainSelector](consensus.TwoFPlus1(fChains[destChain]))
 	consensusObs := consensusObservation{
 		MerkleRoots:      consensus.GetConsensusMap(lggr, "Merkle Root", aggObs.MerkleRoots, twoFChainPlus1),
 		OnRampMaxSeqNums: consensus.GetConsensusMap(lggr, "OnRamp Max Seq Nums", aggObs.OnRampMaxSeqNums, twoFChainPlus1),
@@ -307,7 +310,7 @@ func getConsensusObservation(
 			lggr,
 			"OffRamp Next Seq Nums",
 			aggObs.OffRampNextSeqNums,
-			twoFChainPlus1),
+			twoFDestPlus1),
 		RMNRemoteConfig: consensus.GetConsensusMap(lggr, "RMNRemote cfg", rmnRemoteConfigs, twoFChainPlus1),
 		FChain:          fChains,
 	}
